@@ -1,0 +1,168 @@
+//go:build verif
+
+// Contracts for package balance, file keeper.go (C17 "one ledger, two views"; C18 safety of the EthAccount arithmetic).
+// Builds on verif_contracts.go (ledger `bal`, `balKey`, assumed typed get/set). Comment-only file, read by /verif/govc.
+
+package balance
+
+// ---------------------------------------------------------------- EthAccount arithmetic (exact, on mathematical integers)
+
+//@ func (EthAccount).Balance
+//@   modifies nothing
+//@   ensures acc.Coins.Amount != nil ==> result == acc.Coins.Amount                                          // C17.eth-account-arith
+//@   ensures acc.Coins.Amount == nil && acc.Coins.Currency.Name == "" && acc.Coins.Currency.Id == 0 && acc.Coins.Currency.Chain == 0 && acc.Coins.Currency.Decimal == 0 && acc.Coins.Currency.Unit == "" ==> result != nil && big(result) == 0   // C17.eth-account-arith
+
+// AddBalance goes through Coin.Plus, which calls logger.Fatal (process exit) on a nil amount: the account must hold one.
+//@ func (*EthAccount).AddBalance
+//@   safety C18
+//@   requires acc != nil && acc.Coins.Amount != nil && amount != nil                                          // C18.eth-account-amount
+//@   modifies acc.Coins
+//@   ensures acc.Coins.Amount != nil && fresh(acc.Coins.Amount) && big(acc.Coins.Amount) == old(big(acc.Coins.Amount)) + old(big(amount))   // C17.eth-account-arith
+//@   ensures acc.Coins.Currency == old(acc.Coins.Currency)                                                    // C17.eth-account-arith
+
+// SubBalance panics when the result would be negative.
+//@ func (*EthAccount).SubBalance
+//@   safety C18
+//@   requires acc != nil && acc.Coins.Amount != nil && amount != nil                                          // C18.eth-account-amount
+//@   requires big(acc.Coins.Amount) >= big(amount)                                                            // C18.eth-account-sub-panics
+//@   modifies acc.Coins
+//@   ensures acc.Coins.Amount != nil && fresh(acc.Coins.Amount) && big(acc.Coins.Amount) == old(big(acc.Coins.Amount)) - old(big(amount))   // C17.eth-account-arith
+//@   ensures acc.Coins.Currency == old(acc.Coins.Currency)                                                    // C17.eth-account-arith
+
+// SetBalance stores the caller's *big.Int itself (no copy).
+//@ func (*EthAccount).SetBalance
+//@   safety C18
+//@   requires acc != nil                                                                                      // C18.eth-account-amount
+//@   modifies acc.Coins
+//@   ensures acc.Coins.Amount == amount && acc.Coins.Currency == old(acc.Coins.Currency)                      // C17.eth-account-arith
+
+// ---------------------------------------------------------------- the account keeper: one number, two views
+//
+// The EVM reads and writes accounts through NesterAccountKeeper. The keeper keeps its own record per address
+// (key "<keeper prefix><address bytes>": code hash and sequence) and takes the balance from / writes it to the
+// ordinary balance store record bal(nak.balances)[balKey(addr, "OLT")]: there is no second copy of the number.
+
+// versioned typed view of the State prefix: assumed like (*Store).get (only used by the RPC-side GetVersionedAccount)
+//@ assume func (*Store).getVersioned
+//@   modifies nothing
+//@   ensures amt != nil && fresh(amt)
+
+// big.Int.Bits: the limb slice is empty exactly for zero (math/big representation invariant)
+//@ assume func math/big.(*Int).Bits
+//@   modifies nothing
+//@   ensures (len(result) == 0) == (big(self) == 0)
+
+//@ ghost func keeperKey(nak *NesterAccountKeeper, addr bytes) string = str(nak.prefix) + str(addr)
+
+// getOrCreateCurrencyBalance: the OLT coin of addr, read from the balance store. The error of the store read is
+// dropped (`coin, _ = ...`) and a zero coin substituted: the claims clause below fails exactly there.
+//@ func (*NesterAccountKeeper).getOrCreateCurrencyBalance
+//@   safety C18
+//@   requires nak != nil && nak.balances != nil && curOK(nak.currencies)
+//@   modifies nothing
+//@   ensures (err == nil) == has(nak.currencies.nameMap, "OLT")                                               // C17.one-ledger
+//@   ensures err == nil ==> result0.Amount != nil && fresh(result0.Amount) && result0.Currency.Name == "OLT" && result0.Currency == nak.currencies.nameMap["OLT"]   // C17.one-ledger
+//@   ensures err == nil && height == nil ==> big(result0.Amount) == bal(nak.balances)[balKey(addr, "OLT")] || big(result0.Amount) == 0      // C17.one-ledger
+//@   claims err == nil && height == nil ==> big(result0.Amount) == bal(nak.balances)[balKey(addr, "OLT")]                                   // C17.one-ledger-read-error
+
+// ---------------------------------------------------------------- the AccountKeeper interface
+//
+// The keeper as the EVM (CommitStateDB) and the OLVM handler see it. akOK(k): the keeper is wired (stores present,
+// currency set well formed) and its State is well formed; for the one implementation it is defined by the repr clause.
+// The interface abstracts from the gas-exhaustion flags of the State that the reads of the implementation may set
+// (like the assumed typed getters of the other stores): `modifies nothing` for the read methods.
+// The concrete methods below `implements AccountKeeper`: they are verified under akOK(self) (+ non-nil amount for
+// SetAccount) and must establish the interface postconditions in addition to their own, stronger ones.
+//@ model akOK(AccountKeeper) bool
+//@ repr akOK(self *NesterAccountKeeper) = self != nil && self.balances != nil && curOK(self.currencies) && wfState(self.state)
+//@ interface AccountKeeper
+//@   method NewAccountWithAddress
+//@     requires akOK(self)
+//@     modifies nothing
+//@     ensures err == nil ==> result0 != nil && result0.Coins.Amount != nil && result0.Coins.Currency.Name == "OLT"
+//@   method GetAccount
+//@     requires akOK(self)
+//@     modifies nothing
+//@     ensures err == nil ==> result0 != nil && result0.Coins.Amount != nil && result0.Coins.Currency.Name == "OLT"
+//@   method SetAccount
+//@     requires akOK(self) && arg0.Coins.Amount != nil
+//@   method RemoveAccount
+//@     requires akOK(self)
+//@   method GetNonce
+//@     requires akOK(self)
+//@     modifies nothing
+//@   method GetBalance
+//@     requires akOK(self)
+//@     modifies nothing
+//@     ensures result != nil
+
+//@ func (*NesterAccountKeeper).NewAccountWithAddress
+//@   implements AccountKeeper
+//@   safety C18
+//@   modifies nothing
+//@   ensures err == nil ==> result0 != nil && fresh(result0) && result0.Coins.Amount != nil && result0.Coins.Currency.Name == "OLT" && result0.Sequence == 0 && result0.Address == addr   // C17.one-ledger
+//@   ensures err == nil ==> big(result0.Coins.Amount) == bal(nak.balances)[balKey(addr, "OLT")] || big(result0.Coins.Amount) == 0            // C17.one-ledger
+//@   claims err == nil ==> big(result0.Coins.Amount) == bal(nak.balances)[balKey(addr, "OLT")]                                              // C17.one-ledger-read-error
+
+//@ func (*NesterAccountKeeper).GetBalance
+//@   implements AccountKeeper
+//@   safety C18
+//@   modifies nothing
+//@   ensures result != nil                                                                                                                  // C17.one-ledger
+//@   ensures big(result) == bal(nak.balances)[balKey(addr, "OLT")] || big(result) == 0                                                       // C17.one-ledger
+//@   claims has(nak.currencies.nameMap, "OLT") ==> big(result) == bal(nak.balances)[balKey(addr, "OLT")]                                     // C17.one-ledger-read-error
+
+// GetAccount: the returned account's Coins is the balance-store record (never what the keeper record holds), the
+// rest (sequence, code hash) is the keeper record.
+//@ func (*NesterAccountKeeper).GetAccount
+//@   implements AccountKeeper
+//@   safety C18
+//@   modifies exhausted(nak.state.cache), exhausted(nak.state.txSession)
+//@   ensures err == nil ==> result0 != nil && fresh(result0) && result0.Coins.Amount != nil && fresh(result0.Coins.Amount) && result0.Coins.Currency.Name == "OLT"   // C17.one-ledger
+//@   ensures err == nil ==> big(result0.Coins.Amount) == bal(nak.balances)[balKey(addr, "OLT")] || big(result0.Coins.Amount) == 0            // C17.one-ledger
+// (the strict equality `big(result0.Coins.Amount) == bal(...)[balKey(addr,"OLT")]` is the claims clause
+//  C17.one-ledger-read-error of getOrCreateCurrencyBalance, from which GetAccount takes Coins unchanged; it is not repeated
+//  here because its refutation needs a model of the whole State well-formedness and only times out)
+//@   ensures err == nil && !old(exhausted(nak.state.cache)) && vHas(nak.state)[keeperKey(nak, addr)] && len(vVal(nak.state)[keeperKey(nak, addr)]) > 0 ==> result0.Sequence == deser(vVal(nak.state)[keeperKey(nak, addr)], "EthAccount").Sequence && result0.CodeHash == deser(vVal(nak.state)[keeperKey(nak, addr)], "EthAccount").CodeHash   // C17.keeper-record
+//@   ensures wfState(nak.state)                                                                                                             // C09.wf
+
+//@ func (*NesterAccountKeeper).GetNonce
+//@   implements AccountKeeper
+//@   safety C18
+//@   modifies exhausted(nak.state.cache), exhausted(nak.state.txSession)
+//@   ensures has(nak.currencies.nameMap, "OLT") && !old(exhausted(nak.state.cache)) && vHas(nak.state)[keeperKey(nak, addr)] && len(vVal(nak.state)[keeperKey(nak, addr)]) > 0 ==> result == deser(vVal(nak.state)[keeperKey(nak, addr)], "EthAccount").Sequence || result == 0   // C17.keeper-record
+//@   ensures wfState(nak.state)                                                                                                             // C09.wf
+
+// SetAccount: the balance goes to the balance-store record of (Address, Coins.Currency); the keeper record is the
+// account with Coins blanked (`account.Coins = Coin{}` before Serialize). Coins.Amount is dereferenced unconditionally
+// (nil => panic). NOT stated here: the content of the keeper record after the call (Sequence/CodeHash kept, Coins blank).
+// It holds right after nak.state.Set, but the assumed frame of (*Store).set (whole vHas/vVal of the shared State) havocs
+// it at the following balances.SetBalance; that the keeper record's Coins is never *used* is GetAccount's contract.
+//@ func (*NesterAccountKeeper).SetAccount
+//@   implements AccountKeeper
+//@   safety C18
+//@   update balTotal(nak.balances) := old(balTotal(nak.balances))[account.Coins.Currency.Name := old(balTotal(nak.balances))[account.Coins.Currency.Name] + (bal(nak.balances)[balKey(account.Address, account.Coins.Currency.Name)] - old(bal(nak.balances))[balKey(account.Address, account.Coins.Currency.Name)])]
+//@   modifies bal(nak.balances)[balKey(account.Address, account.Coins.Currency.Name)], balTotal(nak.balances), vHas(nak.balances.State), vVal(nak.balances.State), vHas(nak.state), vVal(nak.state), bHas(nak.state), bVal(nak.state), kvmap(nak.state.cache)[keeperKey(nak, account.Address)], kvmap(nak.state.txSession)[keeperKey(nak, account.Address)], exhausted(nak.state.cache), exhausted(nak.state.txSession), rep(nak.state.cache), rep(nak.state.txSession)
+//@   ensures err == nil ==> bal(nak.balances)[balKey(account.Address, account.Coins.Currency.Name)] == big(account.Coins.Amount)              // C17.one-ledger
+//@   ensures err != nil ==> bal(nak.balances)[balKey(account.Address, account.Coins.Currency.Name)] == old(bal(nak.balances))[balKey(account.Address, account.Coins.Currency.Name)]   // C17.one-ledger
+//@   ensures balTotal(nak.balances)[account.Coins.Currency.Name] - old(balTotal(nak.balances))[account.Coins.Currency.Name] == bal(nak.balances)[balKey(account.Address, account.Coins.Currency.Name)] - old(bal(nak.balances))[balKey(account.Address, account.Coins.Currency.Name)]   // C02.delta
+//@   ensures forall c string :: c != account.Coins.Currency.Name ==> balTotal(nak.balances)[c] == old(balTotal(nak.balances))[c]             // C02.delta
+//@   ensures wfState(nak.state)                                                                                                             // C09.wf
+
+// RemoveAccount is what the EVM calls for a self-destructed (or emptied) account: afterwards the EVM view of the address
+// is "no account, balance 0". One ledger demands the native record to be 0 as well; the code deletes only the keeper
+// record and leaves bal(...)[addr_OLT] as it was (replayed: a contract holding a natively recorded X self-destructs ->
+// beneficiary +X and the contract's balance record still X).
+//@ func (*NesterAccountKeeper).RemoveAccount
+//@   implements AccountKeeper
+//@   safety C18
+//@   claims bal(nak.balances)[balKey(account.Address, "OLT")] == 0                                                                          // C17.one-ledger-remove
+//@   modifies vHas(nak.state), vVal(nak.state), bHas(nak.state), bVal(nak.state), kvmap(nak.state.cache)[keeperKey(nak, account.Address)], kvmap(nak.state.txSession)[keeperKey(nak, account.Address)], exhausted(nak.state.cache), exhausted(nak.state.txSession), rep(nak.state.cache), rep(nak.state.txSession)
+//@   ensures wfState(nak.state)                                                                                                             // C09.wf
+
+// WithState re-aims the keeper record store AND the balance store at the same State: both views read one State.
+//@ func (*NesterAccountKeeper).WithState
+//@   safety C18
+//@   requires nak != nil && nak.balances != nil
+//@   modifies nak.state, nak.balances.State
+//@   ensures nak.state == state && nak.balances.State == state && result != nil                              // C17.one-state
